@@ -71,6 +71,20 @@ CLAIMED["C11"] = (
     "not compared.",
     "DESIGN.md 3/C11",
 )
+CLAIMED["C17"] = (
+    "round-trip oracle over type-directed generated schema models (SDL in drawn order and programmatic): "
+    "print -> build -> print fixed point, no schema changes either way, independent structural view "
+    "equal, texts equal to the generated model",
+    "For generated valid schemas (all type kinds, interface hierarchies, recursive/OneOf inputs, custom "
+    "directives and scalars, non-default roots, adversarial descriptions/reasons, defaults of every kind) "
+    "print_schema output must rebuild without error into a valid schema that prints identically, shows no "
+    "find_schema_changes in either direction, has an identical reflection-extracted structural view "
+    "(orders included, defaults compared as coerced values) and carries every description and deprecation "
+    "reason of the generating model character for character.",
+    "Models are valid by construction (checked as a precondition); deprecated directive definitions are "
+    "not generated (their SDL needs the experimental parser flag).",
+    "DESIGN.md 3/C17",
+)
 PENDING_REASON = (
     "check under construction in this session (DESIGN.md section 3 has its design); it is not claimed "
     "until it has run quietly on the unchanged tree at several seeds"
